@@ -170,6 +170,20 @@ func c15(tier string) int {
 		addSigning("authorized-server", fmt.Sprintf("%x", refServerBody(as)), as.SigningBytes())
 		run.Distinct("value", fmt.Sprintf("server/%x", keccak(as.Serialize())))
 	}
+	// locations beyond what the one-byte length field can express are refused by the server, but whoever signs or
+	// verifies one must still be talking about ALL of its bytes: entries differing only beyond byte 255 never share
+	// signing bytes
+	for _, ll := range []int{256, 257, 300, 511, 512} {
+		base := server.AuthorizedServer{PublicKey: pk(7), Location: strings.Repeat("x", ll), HttpPort: 1, TcpPort: 2, UdpPort: 3}
+		variants := []server.AuthorizedServer{base, base, base, base}
+		variants[1].Location = base.Location[:ll-1] + "y"
+		variants[2].Location = base.Location[:255] + "z" + base.Location[256:]
+		variants[3].Location = base.Location[:255]
+		for _, v := range variants {
+			run.Count("evaluations", 1)
+			addSigning("authorized-server", fmt.Sprintf("long/%x/%d", keccak([]byte(v.Location)), len(v.Location)), v.SigningBytes())
+		}
+	}
 	for n := 0; n <= 2; n++ {
 		for _, id := range []uint32{0, 77, 1<<32 - 1} {
 			em := server.EquipmentMigration{Equipment: pk(1), NewGCA: pk(2), NewShortID: id, Signature: sg(5)}
